@@ -258,13 +258,39 @@ theorem dfStep1_noAbort (rec : P) (m : Mode) (o : Opts) (decl : List FieldDecl) 
   · exact additionStep_noAbort rec m o a i e x
   · rename_i f hf
     split
+    · exact additionStep_noAbort rec m o a i e x
+    · split
+      · simp
+      · have := store_noAbort f.name a.1 (fieldValue rec m o f i.2) (fieldValue_noAbort rec m o f i.2)
+        split
+        · simp
+        · simp
+        · rename_i e' x' hs
+          exact absurd hs (this e' x')
+
+theorem posOnlyStep_noAbort : NoAbort posOnlyStep := by
+  intro a i e x
+  unfold posOnlyStep
+  split
+  · simp
+  · split
     · simp
-    · have := store_noAbort f.name a.1 (fieldValue rec m o f i.2) (fieldValue_noAbort rec m o f i.2)
-      split
-      · simp
-      · simp
-      · rename_i e' x' hs
-        exact absurd hs (this e' x')
+    · split <;> simp
+
+theorem propStep_noAbort (rec : P) (m : Mode) (o : Opts) (res : Data) : NoAbort (propStep rec m o res) := by
+  intro a p e x
+  unfold propStep
+  cases p.compute res with
+  | none => simp
+  | some attr =>
+    simp only
+    cases p.ty with
+    | none => simp
+    | some T =>
+      simp only
+      cases verdict rec T m o attr with
+      | some r => simp
+      | none => cases p.onError.getD o.invalidValues <;> simp
 
 theorem dfStep2_noAbort (data : Data) (ex : List String) : NoAbort (dfStep2 data ex) := by
   intro a f e x
@@ -548,11 +574,45 @@ def posReports (rec : P) (m : Mode) (o : Opts) (sg : Sig) (args : List Val) : Li
 def posFin (rec : P) (m : Mode) (o : Opts) (sg : Sig) (args : List Val) : List Val × List String :=
   fin (posStep rec m o sg) args.zipIdx ([], [])
 
+/-- what the loop over the positional-only parameters reports / ends with -/
+def posOnlyReports (rec : P) (m : Mode) (o : Opts) (sg : Sig) (args : List Val) : List Err :=
+  (trace posOnlyStep (sg.decl.take sg.nposOnly).zipIdx (posFin rec m o sg args)).1
+
+def keysFin (rec : P) (m : Mode) (o : Opts) (sg : Sig) (args : List Val) : List Val × List String :=
+  fin posOnlyStep (sg.decl.take sg.nposOnly).zipIdx (posFin rec m o sg args)
+
 def callReports (rec : P) (m : Mode) (o : Opts) (sg : Sig) (args : List Val) (kwargs : Data) : List Err :=
-  posReports rec m o sg args ++ reportsX rec m o sg.decl (posFin rec m o sg args).2 true kwargs
+  posReports rec m o sg args ++
+  (posOnlyReports rec m o sg args ++ (reportsX rec m o sg.decl (keysFin rec m o sg args).2 true kwargs ++ []))
 
 def callValue (rec : P) (m : Mode) (o : Opts) (sg : Sig) (args : List Val) (kwargs : Data) : List Val × Data :=
-  ((posFin rec m o sg args).1, valueX rec m o sg.decl (posFin rec m o sg args).2 kwargs)
+  ((keysFin rec m o sg args).1, valueX rec m o sg.decl (keysFin rec m o sg args).2 kwargs)
+
+/-- `parse_params` as phases followed by the closing `raise_error()` -/
+theorem parseCall_eq (rec : P) (sg : Sig) (c : Ctx) (args : List Val) (kwargs : Data) :
+    parseCall rec sg c args kwargs =
+      andThen (andThen (runLoop (posStep rec c.mode c.o sg) c args.zipIdx ([], [])) fun c1 acc =>
+        andThen (runLoop posOnlyStep c1 (sg.decl.take sg.nposOnly).zipIdx acc) fun c1' acc' =>
+        andThen (parseData rec sg.decl acc'.2 true c1' kwargs) fun c2 kw => (c2, .ok (acc'.1, kw))) finish := by
+  unfold parseCall
+  simp only [andThen]
+  cases runLoop (posStep rec c.mode c.o sg) c args.zipIdx ([], []) with
+  | mk c1 r1 =>
+    cases r1 with
+    | error x => rfl
+    | ok acc =>
+      simp only
+      cases runLoop posOnlyStep c1 (sg.decl.take sg.nposOnly).zipIdx acc with
+      | mk c1' r1' =>
+        cases r1' with
+        | error x => rfl
+        | ok acc' =>
+          simp only
+          cases parseData rec sg.decl acc'.2 true c1' kwargs with
+          | mk c2 r2 =>
+            cases r2 with
+            | error x => rfl
+            | ok kw => rfl
 
 theorem runCall_collect (W : World) (n : Nat) (sg : Sig) (mx : Option Nat) (hk : capOk mx 0)
     (o : Opts) (args : List Val) (kwargs : Data) :
@@ -560,45 +620,65 @@ theorem runCall_collect (W : World) (n : Nat) (sg : Sig) (mx : Option Nat) (hk :
       if callReports (parse W n) ⟨true, mx⟩ o sg args kwargs = [] then
         .ok (callValue (parse W n) ⟨true, mx⟩ o sg args kwargs)
       else .error (.collected (cap mx (callReports (parse W n) ⟨true, mx⟩ o sg args kwargs))) := by
-  unfold runCall parseCall callReports callValue posReports posFin
-  have hin : ∀ (_ : capOk mx (([] : List Err).length +
-        (trace (posStep (parse W n) ⟨true, mx⟩ o sg) args.zipIdx ([], [])).1.length)),
-      Ran mx o ([] ++ (trace (posStep (parse W n) ⟨true, mx⟩ o sg) args.zipIdx ([], [])).1)
-        (reportsX (parse W n) ⟨true, mx⟩ o sg.decl (fin (posStep (parse W n) ⟨true, mx⟩ o sg) args.zipIdx ([], [])).2 true kwargs)
-        ((fin (posStep (parse W n) ⟨true, mx⟩ o sg) args.zipIdx ([], [])).1,
-          valueX (parse W n) ⟨true, mx⟩ o sg.decl (fin (posStep (parse W n) ⟨true, mx⟩ o sg) args.zipIdx ([], [])).2 kwargs)
-        (andThen (parseData (parse W n) sg.decl (fin (posStep (parse W n) ⟨true, mx⟩ o sg) args.zipIdx ([], [])).2 true
-            (held mx o ([] ++ (trace (posStep (parse W n) ⟨true, mx⟩ o sg) args.zipIdx ([], [])).1)) kwargs)
-          fun c2 kw => (c2, Except.ok ((fin (posStep (parse W n) ⟨true, mx⟩ o sg) args.zipIdx ([], [])).1, kw))) := by
-    intro h1
-    have h2 := ran_andThen
-      (b := ((fin (posStep (parse W n) ⟨true, mx⟩ o sg) args.zipIdx ([], [])).1,
-        valueX (parse W n) ⟨true, mx⟩ o sg.decl (fin (posStep (parse W n) ⟨true, mx⟩ o sg) args.zipIdx ([], [])).2 kwargs))
-      (k := fun c2 (kw : Data) => (c2, Except.ok ((fin (posStep (parse W n) ⟨true, mx⟩ o sg) args.zipIdx ([], [])).1, kw)))
-      (parseData_ran (parse W n) mx o sg.decl (fin (posStep (parse W n) ⟨true, mx⟩ o sg) args.zipIdx ([], [])).2 true
-        ([] ++ (trace (posStep (parse W n) ⟨true, mx⟩ o sg) args.zipIdx ([], [])).1) (capOk_append h1) kwargs)
-      (fun h2 => ran_pure mx o _ (capOk_append h2) _)
-    simpa using h2
-  have h := ran_andThen
-    (k := fun c1 (acc : List Val × List String) =>
-      andThen (parseData (parse W n) sg.decl acc.2 true c1 kwargs) fun c2 kw => (c2, Except.ok (acc.1, kw)))
-    (runLoop_ran (posStep_noAbort (parse W n) ⟨true, mx⟩ o sg) mx o [] hk args.zipIdx ([], []))
-    hin
-  have := ran_finish hk h
-  -- `andThen (andThen r k) finish` is the model's `andThen r (fun … => andThen … finish)`
-  rw [← this]
-  simp only [clean0, held, andThen]
-  cases runLoop (posStep (parse W n) ⟨true, mx⟩ o sg) { mode := ⟨true, mx⟩, o := o } args.zipIdx ([], []) with
-  | mk c1 r1 =>
-    cases r1 with
-    | error x => rfl
-    | ok acc =>
+  unfold runCall
+  rw [parseCall_eq]
+  apply ran_finish hk
+  unfold callReports callValue posReports posOnlyReports keysFin posFin
+  simp only [clean0_mode, clean0_o]
+  refine ran_andThen (runLoop_ran (posStep_noAbort (parse W n) ⟨true, mx⟩ o sg) mx o [] hk args.zipIdx ([], []))
+    (fun h1 => ?_)
+  refine ran_andThen (runLoop_ran posOnlyStep_noAbort mx o _ (capOk_append h1) _ _) (fun h2 => ?_)
+  refine ran_andThen (parseData_ran (parse W n) mx o sg.decl _ true _ (capOk_append h2) kwargs) (fun h3 => ?_)
+  exact ran_pure mx o _ (capOk_append h3) _
+
+/-! ### a Schema with output properties, closed form -/
+
+def propReports (rec : P) (m : Mode) (o : Opts) (decl : List FieldDecl) (props : List PropDecl) (data : Data) :
+    List Err :=
+  (trace (propStep rec m o (value rec m o decl data)) props (value rec m o decl data)).1
+
+def propValue (rec : P) (m : Mode) (o : Opts) (decl : List FieldDecl) (props : List PropDecl) (data : Data) : Data :=
+  fin (propStep rec m o (value rec m o decl data)) props (value rec m o decl data)
+
+/-- a collecting Schema construction: the input errors if there are any (the output properties are then not
+computed), else the errors of the output properties -/
+theorem runSchema_collect (W : World) (n : Nat) (decl : List FieldDecl) (props : List PropDecl) (mx : Option Nat)
+    (hk : capOk mx 0) (o : Opts) (data : Data) :
+    runSchema W n decl props ⟨true, mx⟩ o data =
+      if reports (parse W n) ⟨true, mx⟩ o decl data = [] then
+        (if propReports (parse W n) ⟨true, mx⟩ o decl props data = [] then
+          .ok (propValue (parse W n) ⟨true, mx⟩ o decl props data)
+         else .error (.collected (cap mx (propReports (parse W n) ⟨true, mx⟩ o decl props data))))
+      else .error (.collected (cap mx (reports (parse W n) ⟨true, mx⟩ o decl data))) := by
+  unfold runSchema parseSchema
+  have hpd := parseData_ran (parse W n) mx o decl [] true [] hk data
+  unfold reports propReports propValue value
+  generalize reportsX (parse W n) ⟨true, mx⟩ o decl [] true data = rs at hpd
+  generalize valueX (parse W n) ⟨true, mx⟩ o decl [] data = a at hpd
+  simp only [clean0_mode, clean0_o]
+  have hcl : clean0 ⟨true, mx⟩ o = held mx o [] := rfl
+  rw [hcl]
+  by_cases hc : capOk mx ([] ++ rs : List Err).length
+  · rw [hpd.1 (by simpa using hc)]
+    simp only [andThen, List.nil_append]
+    cases rs with
+    | nil =>
+      simp only [if_true]
+      have hfin : finish ({ mode := ⟨true, mx⟩, o := o, errors := [], tmp := [] } : Ctx) a =
+          (held mx o [], .ok a) := by simp [finish, Ctx.raiseError, held]
+      rw [hfin]
       simp only
-      cases parseData (parse W n) sg.decl acc.2 true c1 kwargs with
-      | mk c2 r2 =>
-        cases r2 with
-        | error x => rfl
-        | ok kw => rfl
+      have hp := runLoop_ran (propStep_noAbort (parse W n) ⟨true, mx⟩ o a) mx o [] hk props a
+      exact ran_finish hk hp
+    | cons e es =>
+      have : cap mx (e :: es) = e :: es := cap_of_ok mx _ (by simpa using hc)
+      simp [finish, Ctx.raiseError, this]
+  · obtain ⟨c', h2⟩ := hpd.2 (by simpa using hc)
+    rw [h2]
+    simp only [andThen, List.nil_append]
+    have : rs ≠ [] := by
+      intro hh; subst hh; exact hc (by simpa using hk)
+    simp [this]
 
 /-! ### the steps do not depend on the mode -/
 
@@ -665,7 +745,12 @@ theorem reports_eq {rec : P} {mC : Mode} (h : Good rec mC) (o : Opts) (decl : Li
 
 theorem callReports_eq {rec : P} {mC : Mode} (h : Good rec mC) (o : Opts) (sg : Sig) (args : List Val)
     (kwargs : Data) : callReports rec .ff o sg args kwargs = callReports rec mC o sg args kwargs := by
-  simp only [callReports, posReports, posFin, posStep_eq h, reportsX_eq h]
+  simp only [callReports, posReports, posOnlyReports, keysFin, posFin, posStep_eq h, reportsX_eq h]
+
+theorem propStep_eq {rec : P} {mC : Mode} (h : Good rec mC) (o : Opts) (res : Data) :
+    propStep rec .ff o res = propStep rec mC o res := by
+  funext acc p
+  simp only [propStep, h.verdict_eq]
 
 /-- the two lookup strategies, two modes -/
 theorem parseData_sim {rec : P} {mC : Mode} (h : Good rec mC) (decl : List FieldDecl) (ex : List String) (g : Bool)
@@ -763,31 +848,52 @@ theorem run_strong (W : World) (n : Nat) (decl : List FieldDecl) (mC : Mode) (o 
 theorem runCall_strong (W : World) (n : Nat) (sg : Sig) (mC : Mode) (o : Opts) (args : List Val) (kwargs : Data) :
     (∃ r, runCall W n sg .ff o args kwargs = .ok r ∧ runCall W n sg mC o args kwargs = .ok r) ∨
     ((∃ x, runCall W n sg .ff o args kwargs = .error x) ∧ ∃ x, runCall W n sg mC o args kwargs = .error x) := by
-  unfold runCall parseCall
+  unfold runCall
+  rw [parseCall_eq, parseCall_eq]
   have hg := parse_good W mC n
   simp only [clean0_mode, clean0_o, posStep_eq hg]
-  have hs : StrongSim o mC
+  have hs : Sim o mC
       (andThen (runLoop (posStep (parse W n) mC o sg) (clean0 .ff o) args.zipIdx ([], [])) fun c1 acc =>
-        andThen (parseData (parse W n) sg.decl acc.2 true c1 kwargs) fun c2 kw => finish c2 (acc.1, kw))
+        andThen (runLoop posOnlyStep c1 (sg.decl.take sg.nposOnly).zipIdx acc) fun c1' acc' =>
+        andThen (parseData (parse W n) sg.decl acc'.2 true c1' kwargs) fun c2 kw => (c2, .ok (acc'.1, kw)))
       (andThen (runLoop (posStep (parse W n) mC o sg) (clean0 mC o) args.zipIdx ([], [])) fun c1 acc =>
-        andThen (parseData (parse W n) sg.decl acc.2 true c1 kwargs) fun c2 kw => finish c2 (acc.1, kw)) := by
-    refine sim_andThen_strong (runLoop_sim _ mC o _ _) (fun acc => ?_) (fun c1 acc hd => ?_)
-    · refine sim_andThen_strong (parseData_sim hg sg.decl acc.2 true o kwargs) (fun kw => ?_) (fun c2 kw hd => ?_)
-      · rw [finish_clean, finish_clean]; left; exact ⟨_, rfl, rfl⟩
-      · obtain ⟨x, hx⟩ := finish_dirty c2 hd (acc.1, kw)
-        exact ⟨c2, x, hx⟩
-    · have hb := parseData_dirty (parse W n) sg.decl acc.2 true c1 kwargs hd
-      revert hb
-      cases parseData (parse W n) sg.decl acc.2 true c1 kwargs with
-      | mk c2 r2 =>
-        intro hb
-        cases r2 with
-        | error x => exact ⟨c2, x, rfl⟩
-        | ok kw =>
-          rcases hb with ⟨y, hy⟩ | hb
-          · simp at hy
-          · obtain ⟨x, hx⟩ := finish_dirty c2 hb (acc.1, kw)
-            exact ⟨c2, x, hx⟩
+        andThen (runLoop posOnlyStep c1 (sg.decl.take sg.nposOnly).zipIdx acc) fun c1' acc' =>
+        andThen (parseData (parse W n) sg.decl acc'.2 true c1' kwargs) fun c2 kw => (c2, .ok (acc'.1, kw))) := by
+    refine sim_andThen (runLoop_sim _ mC o _ _) (fun acc => ?_) (fun c1 acc hd => ?_)
+    · refine sim_andThen (runLoop_sim _ mC o _ _) (fun acc' => ?_) (fun c1' acc' hd => ?_)
+      · exact sim_andThen (parseData_sim hg sg.decl acc'.2 true o kwargs) (fun kw => sim_pure o mC _)
+          (fun c2 kw hd => bad_of_dirty c2 _ hd)
+      · exact bad_andThen (parseData_dirty (parse W n) sg.decl acc'.2 true c1' kwargs hd)
+          (fun c2 kw hd => bad_of_dirty c2 _ hd)
+    · exact bad_andThen (runLoop_dirty _ c1 _ _ hd) (fun c1' acc' hd' =>
+        bad_andThen (parseData_dirty (parse W n) sg.decl acc'.2 true c1' kwargs hd')
+          (fun c2 kw hd => bad_of_dirty c2 _ hd))
+  rcases sim_finish hs with ⟨r, hF, hC⟩ | ⟨⟨c, x, hF⟩, c', x', hC⟩
+  · left; exact ⟨r, by rw [hF], by rw [hC]⟩
+  · right; exact ⟨⟨x, by rw [hF]⟩, x', by rw [hC]⟩
+
+/-- … and of a Schema construction with output properties -/
+theorem runSchema_strong (W : World) (n : Nat) (decl : List FieldDecl) (props : List PropDecl) (mC : Mode)
+    (o : Opts) (data : Data) :
+    (∃ r, runSchema W n decl props .ff o data = .ok r ∧ runSchema W n decl props mC o data = .ok r) ∨
+    ((∃ x, runSchema W n decl props .ff o data = .error x) ∧ ∃ x, runSchema W n decl props mC o data = .error x) := by
+  unfold runSchema parseSchema
+  have hg := parse_good W mC n
+  simp only [clean0_mode, clean0_o, propStep_eq hg]
+  have hs : StrongSim o mC
+      (andThen (parseData (parse W n) decl [] true (clean0 .ff o) data) fun c1 res =>
+        andThen (finish c1 res) fun c2 res =>
+        andThen (runLoop (propStep (parse W n) mC o res) c2 props res) fun c3 out => finish c3 out)
+      (andThen (parseData (parse W n) decl [] true (clean0 mC o) data) fun c1 res =>
+        andThen (finish c1 res) fun c2 res =>
+        andThen (runLoop (propStep (parse W n) mC o res) c2 props res) fun c3 out => finish c3 out) := by
+    refine sim_andThen_strong (parseData_sim hg decl [] true o data) (fun res => ?_) (fun c1 res hd => ?_)
+    · rw [finish_clean, finish_clean]
+      simp only [andThen]
+      exact sim_finish (runLoop_sim _ mC o _ _)
+    · obtain ⟨x, hx⟩ := finish_dirty c1 hd res
+      rw [hx]
+      exact ⟨c1, x, rfl⟩
   rcases hs with ⟨r, hF, hC⟩ | ⟨⟨c, x, hF⟩, c', x', hC⟩
   · left; exact ⟨r, by rw [hF], by rw [hC]⟩
   · right; exact ⟨⟨x, by rw [hF]⟩, x', by rw [hC]⟩
